@@ -13,6 +13,7 @@ package logx
 import (
 	"bytes"
 	"compress/gzip"
+	"encoding/json"
 	"fmt"
 	"io"
 	"log"
@@ -20,6 +21,7 @@ import (
 	"path/filepath"
 	"sort"
 	"strings"
+	"sync"
 	"sync/atomic"
 	"testing"
 	"time"
@@ -37,6 +39,8 @@ const (
 	c19OldBase  = 900000 // ids >= this: records written by an earlier run (not judged)
 	c19MinLen   = 16
 	c19KnownFp  = "rotate-drops-fp"
+	c19KnownBuf = "write-retains-slice"
+	c19GStride  = 100000 // record id = goroutine*stride + sequence number
 	c19DateOnly = "2006-01-02"
 )
 
@@ -50,26 +54,37 @@ type c19Step struct {
 	Ms   int64  `json:"ms,omitempty"` // gap: sleep Ms; mid: sleep to next local midnight + Ms (may be negative)
 	N    int    `json:"n,omitempty"`  // days: sleep N*24h
 	Lens []int  `json:"w,omitempty"`  // burst: record lengths, written back to back
+	Pz   int64  `json:"pz,omitempty"` // logx modes: goroutine g pauses Pz*(g+1) microseconds between its records
 }
 
 type c19Case struct {
-	Rule       string    `json:"rule"` // daily | size
-	Days       int       `json:"days"`
-	Gzip       bool      `json:"gz"`   // the rule's gzip flag
-	Compress   bool      `json:"comp"` // the logger's compress flag (createOutput always passes the same value)
-	Delim      string    `json:"delim"`
-	Base       string    `json:"base"`
-	MaxSize    int       `json:"max,omitempty"` // size rule: bytes set through the in-package field; 0 = constructor's 1 MB
-	MaxBackups int       `json:"mb,omitempty"`
-	T0         int64     `json:"t0,omitempty"`  // seconds slept before anything is created
-	Subdir     bool      `json:"sub,omitempty"` // log directory does not exist yet
-	PreCur     []int     `json:"precur,omitempty"`
-	Pre        []c19Pre  `json:"pre,omitempty"`
-	Unrel      []string  `json:"unrel,omitempty"`
-	StepWait   bool      `json:"sw,omitempty"`  // wait for quiescence after every single record
-	TZ         int       `json:"tz,omitempty"`  // local time zone, minutes east of UTC (names are formatted in local time)
-	Via        bool      `json:"via,omitempty"` // build the writer through logx.createOutput and the package options
-	Steps      []c19Step `json:"steps"`
+	Rule       string   `json:"rule"` // daily | size
+	Days       int      `json:"days"`
+	Gzip       bool     `json:"gz"`   // the rule's gzip flag
+	Compress   bool     `json:"comp"` // the logger's compress flag (createOutput always passes the same value)
+	Delim      string   `json:"delim"`
+	Base       string   `json:"base"`
+	MaxSize    int      `json:"max,omitempty"` // size rule: bytes set through the in-package field; 0 = constructor's 1 MB
+	MaxBackups int      `json:"mb,omitempty"`
+	T0         int64    `json:"t0,omitempty"`  // seconds slept before anything is created
+	Subdir     bool     `json:"sub,omitempty"` // log directory does not exist yet
+	PreCur     []int    `json:"precur,omitempty"`
+	Pre        []c19Pre `json:"pre,omitempty"`
+	Unrel      []string `json:"unrel,omitempty"`
+	StepWait   bool     `json:"sw,omitempty"`  // wait for quiescence after every single record
+	TZ         int      `json:"tz,omitempty"`  // local time zone, minutes east of UTC (names are formatted in local time)
+	Via        bool     `json:"via,omitempty"` // build the writer through logx.createOutput and the package options
+	// Buf: what the caller does with its buffer once Write has returned (legal for any io.Writer):
+	// "" a fresh slice per record, never touched again; "reuse" one buffer, overwritten with the
+	// next record (garbage after the last one of a burst); "zero" fresh slice, zeroed after Write.
+	Buf string `json:"buf,omitempty"`
+	// Mode: "" records are handed to RotateLogger.Write directly; "json" / "plain": records are
+	// logged through the package's file writer (newFileWriter -> concreteWriter.Info -> output ->
+	// writeJson / writePlainText / writePlainValue) by G goroutines.
+	Mode  string    `json:"mode,omitempty"`
+	G     int       `json:"g,omitempty"`
+	Val   bool      `json:"val,omitempty"` // logx modes: every third record is logged as a struct value, not a string
+	Steps []c19Step `json:"steps"`
 }
 
 // c19Rec builds the self-describing record "<id>:<len>:<filler>\n" of exactly n bytes.
@@ -84,10 +99,121 @@ func c19Rec(id, n int) []byte {
 	return b
 }
 
+// c19Payload is the content logged through logx: "<id>:<len>:<filler>", n bytes, no newline,
+// nothing that JSON would escape.
+func c19Payload(id, n int) string {
+	const alpha = "abcdefghijklmnopqrstuvwxyzABCDEFGHIJKLMNOPQRSTUVWXYZ0123456789"
+	hdr := fmt.Sprintf("%d:%d:", id, n)
+	b := make([]byte, n)
+	copy(b, hdr)
+	for k := len(hdr); k < n; k++ {
+		b[k] = alpha[(id*31+k*7)%len(alpha)]
+	}
+	return string(b)
+}
+
+type c19Val struct {
+	P string `json:"p"`
+}
+
+func c19IsVal(c *c19Case, id int) bool { return c.Val && (id%c19GStride)%3 == 0 && id < c19OldBase }
+
+// c19Line is the exact line the package writes for payload (id, n) logged at timestamp ts.
+func c19Line(mode, ts string, id, n int, val bool) []byte {
+	var content any = c19Payload(id, n)
+	if val {
+		content = c19Val{P: c19Payload(id, n)}
+	}
+	if mode == "json" {
+		b, _ := json.Marshal(map[string]any{timestampKey: ts, levelKey: levelInfo, contentKey: content})
+		return append(b, '\n')
+	}
+	var sb strings.Builder
+	sb.WriteString(ts)
+	sb.WriteByte(plainEncodingSep)
+	sb.WriteString(wrapLevelWithColor(levelInfo))
+	sb.WriteByte(plainEncodingSep)
+	if val {
+		b, _ := json.Marshal(content)
+		sb.Write(b)
+		sb.WriteByte('\n') // json.Encoder's newline (writePlainValue)
+	} else {
+		sb.WriteString(content.(string))
+	}
+	sb.WriteByte('\n')
+	return []byte(sb.String())
+}
+
+func c19Header(p string) (id, n int, ok bool) {
+	var rest string
+	if _, err := fmt.Sscanf(p, "%d:%d:", &id, &n); err != nil || id < 0 || n < c19MinLen {
+		return 0, 0, false
+	}
+	_ = rest
+	return id, n, true
+}
+
+// c19ParseLines splits a file written through logx into whole lines, each of which must be
+// byte-identical to the line the package writes for a (timestamp, record) pair.
+func c19ParseLines(b []byte, mode string) ([]c19Parsed, string) {
+	var out []c19Parsed
+	lvl := wrapLevelWithColor(levelInfo)
+	o := 0
+	for o < len(b) {
+		nl := bytes.IndexByte(b[o:], '\n')
+		if nl < 0 {
+			return out, fmt.Sprintf("line at offset %d is not terminated", o)
+		}
+		line := string(b[o : o+nl])
+		var ts, payload string
+		val := false
+		if mode == "json" {
+			var m struct {
+				TS      string          `json:"@timestamp"`
+				Content json.RawMessage `json:"content"`
+			}
+			if err := json.Unmarshal([]byte(line), &m); err != nil {
+				return out, fmt.Sprintf("line at offset %d is not JSON (%v): %.80q", o, err, line)
+			}
+			ts = m.TS
+			var v c19Val
+			if json.Unmarshal(m.Content, &payload) != nil {
+				if json.Unmarshal(m.Content, &v) != nil {
+					return out, fmt.Sprintf("line at offset %d has no usable content: %.80q", o, line)
+				}
+				payload, val = v.P, true
+			}
+		} else {
+			parts := strings.SplitN(line, string(rune(plainEncodingSep)), 3)
+			if len(parts) != 3 || parts[1] != lvl {
+				return out, fmt.Sprintf("line at offset %d is not <time> <level> <content>: %.80q", o, line)
+			}
+			ts, payload = parts[0], parts[2]
+			if strings.HasPrefix(payload, `{"p":"`) && strings.HasSuffix(payload, `"}`) {
+				payload, val = payload[6:len(payload)-2], true
+			}
+		}
+		id, n, ok := c19Header(payload)
+		if !ok {
+			return out, fmt.Sprintf("line at offset %d carries no record header: %.80q", o, line)
+		}
+		exp := c19Line(mode, ts, id, n, val)
+		if !bytes.HasPrefix(b[o:], exp) {
+			return out, fmt.Sprintf("record %d damaged at offset %d: %.100q", id, o, line)
+		}
+		out = append(out, c19Parsed{id: id, off: o, end: o + len(exp)})
+		o += len(exp)
+	}
+	return out, ""
+}
+
 type c19Parsed struct{ id, off, end int }
 
 // c19Parse splits data into whole records; anything else is an error.
-func c19Parse(b []byte) ([]c19Parsed, string) {
+func c19Parse(b []byte, mode string) ([]c19Parsed, string) {
+	if mode != "" {
+		return c19ParseLines(b, mode)
+	}
 	var out []c19Parsed
 	o := 0
 	num := func(p int) (int, int, bool) {
@@ -236,7 +362,7 @@ func (e *c19Env) snapshot() (c19Snap, string) {
 				}
 			}
 			if f.perr == "" {
-				f.recs, f.perr = c19Parse(f.data)
+				f.recs, f.perr = c19Parse(f.data, e.c.Mode)
 			}
 		}
 		s[f.name] = f
@@ -264,6 +390,7 @@ var c19Seq int64
 type c19Result struct {
 	fail      string
 	known     string
+	knownBuf  string
 	rotations int
 	classes   map[string]bool
 	preGone   int
@@ -287,6 +414,9 @@ func c19Interp(t *testing.T, c c19Case) (v kit.Verdict) {
 	case r.known != "":
 		v.Fail = r.known
 		v.Known = c19KnownFp
+	case r.knownBuf != "":
+		v.Fail = r.knownBuf
+		v.Known = c19KnownBuf
 	}
 	return v
 }
@@ -325,6 +455,12 @@ func c19Run(c c19Case, root string, r *c19Result) {
 		}
 	}
 	oldID := c19OldBase
+	oldRec := func(id, n int) []byte {
+		if c.Mode == "" {
+			return c19Rec(id, n)
+		}
+		return c19Line(c.Mode, start.Add(-time.Hour).Format(timeFormat), id, n, false)
+	}
 	if !c.Subdir {
 		for _, p := range c.Pre {
 			bt := start.Add(-time.Duration(p.Age)*24*time.Hour + time.Duration(p.Sec)*time.Second)
@@ -336,7 +472,7 @@ func c19Run(c c19Case, root string, r *c19Result) {
 				continue
 			}
 			oldID++
-			b := c19Rec(oldID, 40)
+			b := oldRec(oldID, 40)
 			if c.Gzip {
 				b = c19Gz(b)
 			}
@@ -349,7 +485,7 @@ func c19Run(c c19Case, root string, r *c19Result) {
 			var b []byte
 			for _, n := range c.PreCur {
 				oldID++
-				b = append(b, c19Rec(oldID, n)...)
+				b = append(b, oldRec(oldID, n)...)
 			}
 			write(c.Base, b)
 			delete(pre, c.Base) // the current file grows; judged through the record rules
@@ -377,7 +513,39 @@ func c19Run(c c19Case, root string, r *c19Result) {
 	}
 	var l *RotateLogger
 	var err error
-	if c.Via {
+	var cw *concreteWriter
+	closeAll := func() error { return l.Close() }
+	if c.Mode != "" {
+		// the package's own file mode: newFileWriter builds five rotating writers from a Config
+		savedOpt, savedEnc, savedLvl := options, atomic.LoadUint32(&encoding), atomic.LoadUint32(&logLevel)
+		options = logOptions{}
+		enc := uint32(jsonEncodingType)
+		if c.Mode == "plain" {
+			enc = plainEncodingType
+		}
+		atomic.StoreUint32(&encoding, enc)
+		defer func() {
+			options = savedOpt
+			atomic.StoreUint32(&encoding, savedEnc)
+			atomic.StoreUint32(&logLevel, savedLvl)
+		}()
+		conf := Config{Mode: fileMode, Path: e.dir, Compress: c.Gzip, KeepDays: c.Days}
+		if c.Rule == "size" {
+			conf.Rotation, conf.MaxSize, conf.MaxBackups = sizeRotationRule, 1, c.MaxBackups
+		}
+		w, e2 := newFileWriter(conf)
+		if e2 != nil {
+			failf("newFileWriter: %v", e2)
+			return
+		}
+		cw = w.(*concreteWriter)
+		l = cw.infoLog.(*RotateLogger)
+		if sr, ok := l.rule.(*SizeLimitRotateRule); ok {
+			sr.maxSize = maxSize
+		}
+		closeAll = cw.Close
+		r.classes["mode-"+c.Mode] = true
+	} else if c.Via {
 		// the path taken by logx.SetUp in file mode: options -> createOutput
 		saved := options
 		options.gzipEnabled, options.keepDays, options.maxBackups, options.maxSize = c.Gzip, c.Days, c.MaxBackups, 1
@@ -408,7 +576,7 @@ func c19Run(c c19Case, root string, r *c19Result) {
 	defer func() {
 		if !closed {
 			kit.Wait()
-			l.Close()
+			closeAll()
 		}
 	}()
 	kit.Wait()
@@ -432,7 +600,9 @@ func c19Run(c c19Case, root string, r *c19Result) {
 	loc := map[int]string{} // record id -> file it was seen in at the previous snapshot
 	gone := map[int]bool{}  // record id -> its backup was removed by a justified clean-up
 	tolerated := map[int]bool{}
-	nextID := 1
+	var count [4]int      // records accepted so far, per goroutine
+	recordsJudged := true // false once the known defect "write-retains-slice" has damaged the files
+	retains := c.Buf != "" || c.Mode == "plain"
 	coherent := c.Gzip == c.Compress
 	if !coherent {
 		r.classes["gzip-flags-differ"] = true
@@ -452,11 +622,30 @@ func c19Run(c c19Case, root string, r *c19Result) {
 			failf("%s: the current log file %s does not exist", what, c.Base)
 			return false
 		}
+		// recFail reports a failure of the record rules (e)(f). Where the case lets the caller's
+		// buffer change after Write returned (Buf != "", or logx's plain encoding, which writes
+		// through fmt.Fprint's pooled buffer) it is the known defect: RotateLogger.Write queues
+		// the caller's slice instead of a copy. The records are then not judged any further.
+		recFail := func(format string, a ...any) bool {
+			if retains {
+				if r.knownBuf == "" {
+					r.knownBuf = fmt.Sprintf(format, a...) + " [the caller's buffer was changed after Write had returned]"
+				}
+				recordsJudged = false
+				return true
+			}
+			failf(format, a...)
+			return false
+		}
 		// all files that parse as log files: no damaged content
-		for _, f := range cur {
-			if f.kind != c19Other && f.perr != "" {
-				failf("%s: file %s holds an incomplete or damaged record: %s", what, f.name, f.perr)
-				return false
+		if recordsJudged {
+			for _, f := range cur {
+				if f.kind != c19Other && f.perr != "" {
+					if !recFail("%s: file %s holds an incomplete or damaged record: %s", what, f.name, f.perr) {
+						return false
+					}
+					break
+				}
 			}
 		}
 		// rotation observed in this step?
@@ -470,7 +659,7 @@ func c19Run(c c19Case, root string, r *c19Result) {
 				if fi, err := held.Stat(); err == nil {
 					b := make([]byte, fi.Size())
 					if n, _ := held.ReadAt(b, 0); n == len(b) {
-						recs, _ := c19Parse(b)
+						recs, _ := c19Parse(b, c.Mode)
 						for _, p := range recs {
 							oldRecs[p.id] = true
 						}
@@ -559,109 +748,115 @@ func c19Run(c c19Case, root string, r *c19Result) {
 				return false
 			}
 		}
-		// (e) records: each one once, complete, in order, or gone with a justified clean-up
-		type hit struct {
-			file string
-			n    int
-		}
-		where := map[int]*hit{}
+		// (e) records: each one once, complete, in order (per goroutine), or gone with a justified clean-up
 		var order []*c19File
-		for _, f := range cur {
-			if f.kind == c19Backup {
-				order = append(order, f)
+		judgeRecords := func() bool {
+			type hit struct {
+				file string
+				n    int
 			}
-		}
-		sort.Slice(order, func(i, j int) bool {
-			if !order[i].t.Equal(order[j].t) {
-				return order[i].t.Before(order[j].t)
+			where := map[int]*hit{}
+			for _, f := range cur {
+				if f.kind == c19Backup {
+					order = append(order, f)
+				}
 			}
-			return order[i].name < order[j].name
-		})
-		order = append(order, cf)
-		last := 0
-		for _, f := range order {
-			for _, p := range f.recs {
-				if p.id >= c19OldBase {
+			sort.Slice(order, func(i, j int) bool {
+				if !order[i].t.Equal(order[j].t) {
+					return order[i].t.Before(order[j].t)
+				}
+				return order[i].name < order[j].name
+			})
+			order = append(order, cf)
+			var last [4]int
+			for _, f := range order {
+				for _, p := range f.recs {
+					if p.id >= c19OldBase {
+						continue
+					}
+					if h := where[p.id]; h != nil {
+						h.n++
+						return recFail("%s: record %d is present more than once (%s and %s)", what, p.id, h.file, f.name)
+					}
+					where[p.id] = &hit{file: f.name, n: 1}
+					g, n := p.id/c19GStride, p.id%c19GStride
+					if g >= len(count) || n == 0 || n > count[g] {
+						return recFail("%s: file %s holds record %d which was never written", what, f.name, p.id)
+					}
+					if p.id <= last[g] {
+						return recFail("%s: record %d follows record %d (file %s): order broken", what, p.id, last[g], f.name)
+					}
+					last[g] = p.id
+				}
+			}
+			var accepted []int
+			for g := range count {
+				for n := 1; n <= count[g]; n++ {
+					accepted = append(accepted, g*c19GStride+n)
+				}
+			}
+			for _, id := range accepted {
+				if where[id] != nil {
+					if gone[id] || tolerated[id] {
+						return recFail("%s: record %d reappeared in %s after its file had been removed", what, id, where[id].file)
+					}
 					continue
 				}
-				if h := where[p.id]; h != nil {
-					h.n++
-					failf("%s: record %d is present more than once (%s and %s)", what, p.id, h.file, f.name)
-					return false
-				}
-				where[p.id] = &hit{file: f.name, n: 1}
-				if p.id >= nextID {
-					failf("%s: file %s holds record %d which was never written", what, f.name, p.id)
-					return false
-				}
-				if p.id <= last {
-					failf("%s: record %d follows record %d (file %s): order broken", what, p.id, last, f.name)
-					return false
-				}
-				last = p.id
-			}
-		}
-		for id := 1; id < nextID; id++ {
-			if where[id] != nil {
 				if gone[id] || tolerated[id] {
-					failf("%s: record %d reappeared in %s after its file had been removed", what, id, where[id].file)
-					return false
+					continue
 				}
-				continue
-			}
-			if gone[id] || tolerated[id] {
-				continue
-			}
-			// missing: find a justification
-			was, seenBefore := loc[id]
-			switch {
-			case seenBefore && was != c.Base && cur[was] == nil:
-				// its backup was removed in this step; (c) has judged the removal
-				gone[id] = true
-				continue
-			case rotated && oldRecs[id] &&
-				cur[e.backupName(expT, c.Compress)] == nil && c.Days > 0 && e.older(expT, now, c.Days):
-				// it was in the file rotated in this step, whose backup name is already
-				// older than the retention days, so the clean-up removed it at once
-				gone[id] = true
-				r.classes["backup-outdated-at-birth"] = true
-				continue
-			}
-			if l.fp == nil && (rotated || r.rotations > 0) {
-				// characterises the known defect: rotate() discards the handle of the re-created file
-				tolerated[id] = true
-				if r.known == "" {
-					r.known = fmt.Sprintf("%s: record %d was accepted and processed but is in no file; the writer's fp is nil after a rotation", what, id)
+				// missing: find a justification
+				was, seenBefore := loc[id]
+				switch {
+				case seenBefore && was != c.Base && cur[was] == nil:
+					// its backup was removed in this step; (c) has judged the removal
+					gone[id] = true
+					continue
+				case rotated && oldRecs[id] &&
+					cur[e.backupName(expT, c.Compress)] == nil && c.Days > 0 && e.older(expT, now, c.Days):
+					// it was in the file rotated in this step, whose backup name is already
+					// older than the retention days, so the clean-up removed it at once
+					gone[id] = true
+					r.classes["backup-outdated-at-birth"] = true
+					continue
 				}
-				continue
+				if l.fp == nil && (rotated || r.rotations > 0) {
+					// characterises the known defect: rotate() discards the handle of the re-created file
+					tolerated[id] = true
+					if r.known == "" {
+						r.known = fmt.Sprintf("%s: record %d was accepted and processed but is in no file; the writer's fp is nil after a rotation", what, id)
+					}
+					continue
+				}
+				if seenBefore {
+					return recFail("%s: record %d, last seen in %s, is in no file any more", what, id, was)
+				}
+				return recFail("%s: record %d was accepted and processed but is in no file", what, id)
 			}
-			if seenBefore {
-				failf("%s: record %d, last seen in %s, is in no file any more", what, id, was)
-			} else {
-				failf("%s: record %d was accepted and processed but is in no file", what, id)
+			for id, h := range where {
+				loc[id] = h.file
 			}
-			return false
-		}
-		for id, h := range where {
-			loc[id] = h.file
-		}
-		// (f) size rule: at most one record of a file ends beyond the maximum
-		if c.Rule == "size" {
-			for _, f := range order {
-				beyond := 0
-				for _, p := range f.recs {
-					if p.id < c19OldBase && int64(p.end) > maxSize {
-						beyond++
+			// (f) size rule: at most one record of a file ends beyond the maximum
+			if c.Rule == "size" {
+				for _, f := range order {
+					beyond := 0
+					for _, p := range f.recs {
+						if p.id < c19OldBase && int64(p.end) > maxSize {
+							beyond++
+						}
+					}
+					if beyond > 1 {
+						return recFail("%s: file %s (%d bytes) grew beyond the maximum of %d bytes by %d records", what, f.name, len(f.data), maxSize, beyond)
+					}
+					if beyond == 1 {
+						r.classes["file-beyond-max-by-one-record"] = true
 					}
 				}
-				if beyond > 1 {
-					failf("%s: file %s (%d bytes) grew beyond the maximum of %d bytes by %d records", what, f.name, len(f.data), maxSize, beyond)
-					return false
-				}
-				if beyond == 1 {
-					r.classes["file-beyond-max-by-one-record"] = true
-				}
 			}
+			return true
+		}
+		if recordsJudged && !judgeRecords() {
+			return false
 		}
 		// (g) after a rotation's clean-up nothing clearly outdated is left (1 day of margin)
 		if rotated && coherent {
@@ -706,7 +901,7 @@ func c19Run(c c19Case, root string, r *c19Result) {
 		return true
 	}
 
-	if !check("after NewLogger", nextID) {
+	if !check("after NewLogger", 0) {
 		return
 	}
 
@@ -721,17 +916,75 @@ func c19Run(c c19Case, root string, r *c19Result) {
 		case "days":
 			time.Sleep(time.Duration(st.N) * 24 * time.Hour)
 		}
-		first := nextID
-		for _, n := range st.Lens {
-			rec := c19Rec(nextID, n)
-			w, err := l.Write(rec)
-			if err != nil || w != n {
-				failf("step %d: Write of record %d before Close returned (%d, %v)", i, nextID, w, err)
-				return
+		first := count[0] + 1
+		if c.Mode == "" {
+			var shared []byte
+			for k, n := range st.Lens {
+				id := count[0] + 1
+				rec := c19Rec(id, n)
+				if c.Buf == "reuse" {
+					if cap(shared) < n {
+						shared = make([]byte, 0, 1024)
+						if n > 1024 {
+							shared = make([]byte, 0, n)
+						}
+					}
+					shared = shared[:n]
+					copy(shared, rec)
+					rec = shared
+				}
+				w, err := l.Write(rec)
+				if err != nil || w != n {
+					failf("step %d: Write of record %d before Close returned (%d, %v)", i, id, w, err)
+					return
+				}
+				// Write has returned: the buffer belongs to the caller again
+				switch {
+				case c.Buf == "zero":
+					for j := range rec {
+						rec[j] = 0
+					}
+				case c.Buf == "reuse" && k == len(st.Lens)-1:
+					for j := range rec {
+						rec[j] = '#'
+					}
+				}
+				count[0]++
+				if c.StepWait {
+					kit.Wait()
+				}
 			}
-			nextID++
-			if c.StepWait {
-				kit.Wait()
+		} else {
+			g := c.G
+			if g < 1 {
+				g = 1
+			}
+			per := make([][]int, g)
+			for k, n := range st.Lens {
+				per[k%g] = append(per[k%g], n)
+			}
+			var wg sync.WaitGroup
+			for gi := 0; gi < g; gi++ {
+				wg.Add(1)
+				go func(gi, base int, lens []int, pz int64) {
+					defer wg.Done()
+					for k, n := range lens {
+						id := gi*c19GStride + base + k + 1
+						if c19IsVal(&c, id) {
+							cw.Info(c19Val{P: c19Payload(id, n)})
+						} else {
+							cw.Info(c19Payload(id, n))
+						}
+						if pz > 0 {
+							time.Sleep(time.Duration(pz*int64(gi+1)) * time.Microsecond)
+						}
+					}
+				}(gi, count[gi], per[gi], st.Pz)
+				count[gi] += len(per[gi])
+			}
+			wg.Wait()
+			if g > 1 {
+				r.classes["goroutines>1"] = true
 			}
 		}
 		if len(st.Lens) > bufferSize {
@@ -739,7 +992,7 @@ func c19Run(c c19Case, root string, r *c19Result) {
 		}
 		kit.Wait()
 		before := r.rotations
-		if !check(fmt.Sprintf("step %d (%s, records %d..%d)", i, time.Now().Format(time.RFC3339), first, nextID-1), first) {
+		if !check(fmt.Sprintf("step %d (%s, records %d..%d)", i, time.Now().Format(time.RFC3339), first, count[0]), first) {
 			return
 		}
 		if r.rotations > before {
@@ -752,12 +1005,12 @@ func c19Run(c c19Case, root string, r *c19Result) {
 	}
 	kit.Wait()
 	closed = true
-	if err := l.Close(); err != nil {
+	if err := closeAll(); err != nil {
 		r.classes["close-returned-error"] = true
 	}
 	kit.Wait()
 	before := r.rotations
-	if !check("after Close", nextID) {
+	if !check("after Close", 0) {
 		return
 	}
 	if r.rotations > before {
@@ -777,12 +1030,29 @@ func c19Run(c c19Case, root string, r *c19Result) {
 		r.classes["compress"] = true
 	}
 	r.classes["rule-"+c.Rule] = true
+	if c.Buf != "" {
+		r.classes["buffer-"+c.Buf] = true
+	}
 }
 
 // ---------------------------------------------------------------- generator
 
-func c19Gen(rt *rapid.T) c19Case {
+func c19Gen(rt *rapid.T) c19Case     { return c19GenWith(rt, false) }
+func c19GenLogx(rt *rapid.T) c19Case { return c19GenWith(rt, true) }
+
+// c19GenWith: logx=false hands records to RotateLogger.Write directly; logx=true logs them
+// through the package's file writer with the json or plain encoding from 1..4 goroutines.
+func c19GenWith(rt *rapid.T, logx bool) c19Case {
 	c := c19Case{}
+	ovh := 0 // upper bound of the bytes logx adds around a payload (timestamp, level, JSON syntax)
+	if logx {
+		ovh = 110
+		c.Mode = rapid.SampledFrom([]string{"json", "plain"}).Draw(rt, "mode")
+		c.G = rapid.IntRange(1, 4).Draw(rt, "goroutines")
+		c.Val = rapid.Bool().Draw(rt, "val")
+	} else {
+		c.Buf = rapid.SampledFrom([]string{"", "", "reuse", "zero"}).Draw(rt, "buf")
+	}
 	c.Rule = rapid.SampledFrom([]string{"daily", "size", "size"}).Draw(rt, "rule")
 	c.Days = rapid.IntRange(0, 5).Draw(rt, "days")
 	c.Gzip = rapid.Bool().Draw(rt, "gzip")
@@ -794,8 +1064,11 @@ func c19Gen(rt *rapid.T) c19Case {
 	c.Base = rapid.SampledFrom([]string{"access.log", "svc", "a.b.log"}).Draw(rt, "base")
 	c.T0 = rapid.SampledFrom([]int64{0, 0, 1, 3600, 43200, 86398, 86399}).Draw(rt, "t0")
 	c.StepWait = rapid.Bool().Draw(rt, "stepWait")
+	if logx { // newFileWriter fixes these
+		c.Compress, c.Delim, c.Base = c.Gzip, backupFileDelimiter, accessFilename
+	}
 	c.TZ = rapid.SampledFrom([]int{0, 0, 0, 480, -330, 765}).Draw(rt, "tz")
-	if c.Delim == backupFileDelimiter && c.Compress == c.Gzip {
+	if c.Delim == backupFileDelimiter && c.Compress == c.Gzip && !logx {
 		c.Via = rapid.Bool().Draw(rt, "via")
 	}
 	big := false
@@ -805,8 +1078,10 @@ func c19Gen(rt *rapid.T) c19Case {
 		if kit.Thorough() {
 			bigOdds = 30
 		}
-		if d := rapid.IntRange(0, 999).Draw(rt, "big"); d >= 500 && d < 500+bigOdds {
+		if d := rapid.IntRange(0, 999).Draw(rt, "big"); d >= 500 && d < 500+bigOdds && !logx {
 			big = true
+		} else if logx {
+			c.MaxSize = rapid.IntRange(300, 1500).Draw(rt, "maxSize")
 		} else {
 			c.MaxSize = rapid.IntRange(64, 512).Draw(rt, "maxSize")
 		}
@@ -848,7 +1123,7 @@ func c19Gen(rt *rapid.T) c19Case {
 	// model of the bytes in the current file, used only to aim record sizes at the limit
 	cur := 0
 	for _, n := range c.PreCur {
-		cur += n
+		cur += n + ovh
 	}
 	max := c.MaxSize
 	if big {
@@ -899,7 +1174,7 @@ func c19Gen(rt *rapid.T) c19Case {
 				default:
 					switch rapid.IntRange(0, 9).Draw(rt, "lenKind") {
 					case 0: // exactly fills, or misses by one
-						n = max - cur + rapid.IntRange(-1, 1).Draw(rt, "d")
+						n = max - cur - ovh + rapid.IntRange(-1, 1).Draw(rt, "d")
 					case 1: // larger than the whole limit
 						n = max + rapid.IntRange(1, 40).Draw(rt, "over")
 					default:
@@ -909,23 +1184,31 @@ func c19Gen(rt *rapid.T) c19Case {
 				if n < c19MinLen {
 					n = c19MinLen
 				}
-				if total+n > max-1 && k > 0 {
+				if total+n+ovh > max-1 && k > 0 {
 					break
 				}
-				total += n
+				total += n + ovh
 				st.Lens = append(st.Lens, n)
-				if cur+n > max {
+				if cur+n+ovh > max {
 					cur = 0
 				}
-				cur += n
+				cur += n + ovh
 				if total >= max-1 {
 					break
 				}
 			}
 		}
+		if logx {
+			st.Pz = rapid.SampledFrom([]int64{0, 0, 1, 50, 1000, 20000}).Draw(rt, "pause")
+		}
 		c.Steps = append(c.Steps, st)
 	}
 	return c
+}
+
+func TestVerif_C19_logx(t *testing.T) {
+	kit.Run(t, "C19", "logx-path", kit.Opts{Quick: 500, Thorough: 16000}, c19GenLogx,
+		func(c c19Case) kit.Verdict { return c19Interp(t, c) })
 }
 
 func TestVerif_C19_rotate(t *testing.T) {
